@@ -14,6 +14,10 @@ CHECKS = {
    technique="property-based testing (rapid): stateful model-based generation on a real store vs a reference KV-history model, with generated index configurations and maintenance interleavings",
    text="Generated histories (overwrites, logical deletes, expirations, non-indexable entries, empty/max-size values, long shared prefixes, max-length keys, up to 50 keys per tx) on a real store with generated index options (bulk size 1-8, flush/sync thresholds, node size, cache, buffered-data limit; default index or multi-indexing with prefixed + injective mapped indexes), interleaved with flush/compaction/reopen; after indexing caught up every read API (Get, GetWithFilters, GetBetween, GetWithPrefix, History, key readers with seek/end/prefix/direction/offset) is compared with the model. Search-based.",
    note="Trusted: the reference model in internal/stx; expirations use fixed far-past/far-future instants; GetWithPrefix exclusion key only nil/first match; mapped-index history not asserted. Pinned probes keep the 6 repaired indexer/tbtree defects (F1,F9-F13) under watch."),
+ "C03": dict(level="fault_enumeration", design="DESIGN.md §2 C03",
+   technique="fault injection over recorded storage operations: generated workloads on a store whose logs are recorded through the public WithAppFactory seam; generated crash points x per-log survival of un-fsynced writes; crash images materialised through real appendables and checked against a ledger oracle",
+   text="Workloads (1-4 concurrent committers, synced store, generated chunk/AHT/index thresholds, index flushes; and a replica-like scenario: committed + precommitted txs, discard, different txs under the same ids, partial commit allowance) are recorded operation by operation for every log. For generated crash points (biased to the neighbourhood of flush/fsync) and generated survival of flushed-but-not-fsynced writes per log (none/all/prefix/torn) the crash image is rebuilt and reopened: acked txs present and byte-identical, recovered history a gap-free chain made only of txs written under those ids, BlRoot equal to the reference Merkle root, dual proofs from acked states verify, index agrees with the recovered history, new commits chain on, clean restart stable.",
+   note="Crash states explored are a subset of real ones: per-file prefix of writes already handed to the OS + torn last write; no intra-file reordering, no directory-entry loss; compaction disabled in workloads; second crash during recovery not yet explored. K18 (prealloc + torn commit-log entry) excluded by class."),
 }
 
 NOT_YET = "check not built yet in this session (work in progress; see DESIGN.md §2 for the planned harness)"
